@@ -75,3 +75,42 @@ func zzH_c14_pbkdf2() {
 	vAssert("derived-key-is-pbkdf2-of-the-whole-password", len(got) == keyLen && bytes.Equal(got, want[:keyLen]))
 	vReach("end")
 }
+
+// recording hash for running the real crypto/hmac: the digest is an arbitrary function of
+// everything written
+type zzRecSHA struct{ buf []byte }
+
+func (h *zzRecSHA) Write(p []byte) (int, error) { h.buf = append(h.buf, p...); return len(p), nil }
+func (h *zzRecSHA) Reset()                      { h.buf = nil }
+func (h *zzRecSHA) Size() int                   { return 20 }
+func (h *zzRecSHA) BlockSize() int              { return 64 }
+func (h *zzRecSHA) Sum(b []byte) []byte {
+	return append(b, vUFBytes("recsha", 20, zzPBPad(h.buf, 160))...)
+}
+func zzRecSHANew() hash.Hash { return &zzRecSHA{} }
+
+// H14-password-zero-padding: "decoding with any other password yields an error" meets HMAC's
+// key handling (RFC 2104: a key shorter than the hash block is padded with zero bytes): a
+// password and the same password followed by a zero byte key the PBKDF2 PRF identically, so they
+// derive the same file key and open the same files. Inherent to PBES2/PBKDF2-HMAC, not repairable
+// without leaving the format: recorded as a known finding.
+//
+//verif:property C14
+//verif:expect-reach end
+//verif:bound passwords of 0..3 symbolic bytes against the same password followed by one zero byte; salt 2 symbolic bytes, one iteration, 20 key bytes; the real pbkdf and the real crypto/hmac over a recording hash (SHA-1 natively)
+//verif:outside passwords longer than a hash block (replaced by their digest: the second standard equivalence)
+//verif:unwind 400
+func zzH_c14_password_zero_padding() {
+	pl := vChoice("pwLen", 4)
+	pw := vBytes("password", pl, pl)
+	pw2 := append(append([]byte{}, pw...), 0)
+	salt := vBytes("salt", 2, 2)
+	h := zzRecSHANew
+	if vNative() {
+		h = sha1.New
+	}
+	k1 := pbkdf(pw, salt, 1, 20, h)
+	k2 := pbkdf(pw2, salt, 1, 20, h)
+	vAssert("password-differing-by-a-trailing-zero-byte-derives-another-key", !bytes.Equal(k1, k2))
+	vReach("end")
+}
